@@ -181,6 +181,30 @@ pub fn big_case(n: usize, ips: u32) -> Case {
     }
 }
 
+/// `n` single-entry blocks under a fan-out-2 index: the full-span search visits about 2n nodes
+pub fn deep_index_case(n: usize) -> Case {
+    let mut c = big_case(n, 1);
+    c.opts.block_size = 2;
+    c.opts.zoom = ZoomSpec::Manual(vec![]);
+    c.opts.compress = false;
+    c
+}
+
+/// a supplied schema of about `bytes` bytes (long field comments), 3 + 2 fields
+pub fn long_autosql_case(bytes: usize) -> Case {
+    let pad = "x".repeat(bytes / 2);
+    let sql = format!(
+        "table longComments\n\"a schema with very long comments\"\n(\nstring chrom; \"chromosome\"\nuint chromStart; \"start\"\nuint chromEnd; \"end\"\nstring name; \"{} é\"\nuint score; \"{}\"\n)\n",
+        pad, pad
+    );
+    let mut c = big_case(40, 8);
+    for e in c.input.chroms[0].entries.iter_mut() {
+        e.rest = format!("n\t{}", e.s % 1000);
+    }
+    c.input.autosql = Some(sql);
+    c
+}
+
 impl Prop for C02 {
     type Case = Case;
     const ID: &'static str = "C02";
@@ -204,7 +228,16 @@ impl Prop for C02 {
     }
     fn fixed_cases(_tier: Tier) -> Vec<Case> {
         // the upper end of the items_per_slot range: one full section, one item more, two sections
-        vec![big_case(65_535, 65535), big_case(65_536, 65535), big_case(70_000, 65535)]
+        vec![
+            big_case(65_535, 65535),
+            big_case(65_536, 65535),
+            big_case(70_000, 65535),
+            // scale thresholds: an index search that has to visit more than 2^16 nodes (fan-out 2 over
+            // 70 000 single-entry blocks), a schema longer than any 8 KiB read buffer
+            deep_index_case(70_000),
+            long_autosql_case(9_000),
+            long_autosql_case(70_000),
+        ]
     }
     fn strategy(tier: Tier) -> BoxedStrategy<Case> {
         prop_oneof![
